@@ -1,21 +1,26 @@
 """C19 - Text conflicts are reported exactly when conflict markers are written.
 
 Bounded exhaustive enumeration of ALL triples (BASE, THIS, OTHER) of line lists up
-to a length bound over a small alphabet (ordinary lines, a last line without EOL,
+to a length bound over small alphabets (ordinary lines, a last line without EOL,
 lines that look like the conflict markers, a line starting with the merger's
 internal start-of-conflict sentinel) x all valid merge option combinations
-(reprocess, show-base, cherrypick; reprocess+show-base is refused and counted).
-Every triple is a file in real working trees on /dev/shm (bzr 2a; git as a separate
-sub-run with a smaller bound): BASE, THIS and OTHER are committed, the real
+(reprocess, show-base, cherrypick; reprocess+show-base must be refused).  Quick:
+lists of <=2 lines over {c\n, <<<<<<< TREE\n, c} and over {c\n, sentinel line, c}
+(bzr 2a; the first also on git trees) and <=3 lines over {a\n, c}; thorough adds
+<=2 lines over the full 8-line alphabet, <=3 lines over {a\n, b\n, sentinel, c}
+and the sentinel alphabets on git (spaces run in priority order under a wall-clock
+budget; anything not run is reported as a cap).  Every triple is a file in real
+working trees on /dev/shm: BASE, THIS and OTHER are committed, the real
 breezy.merge.Merger / Merge3Merger merges OTHER into THIS, and for conflicted files
 the real breezy.conflicts.resolve(take_this / take_other) runs in copies of the
 merged tree.  Oracle = the property statement evaluated with the pinned merge3
-library: TextConflict recorded <=> merge_regions() (after reprocess_merge_regions
-when reprocessing) has a conflict region; conflicted file = regions between
-<<<<<<< TREE / ||||||| BASE-REVISION / ======= / >>>>>>> MERGE-SOURCE with
-.BASE/.THIS/.OTHER holding exactly the three texts; otherwise the clean merged
-text, no helpers, no record; take-this/take-other leave exactly THIS/OTHER text,
-no helpers, no record (other files and conflicts untouched).
+library: TextConflict recorded (tree.conflicts() and do_merge's result) <=>
+merge_regions() (after reprocess_merge_regions when reprocessing) has a conflict
+region; conflicted file = regions between <<<<<<< TREE / ||||||| BASE-REVISION /
+======= / >>>>>>> MERGE-SOURCE with .BASE/.THIS/.OTHER holding exactly the three
+texts; otherwise the clean merged text, no helpers, no record; take-this/take-other
+leave exactly THIS/OTHER text, no helpers, no record (other files and conflicts
+untouched).
 """
 import inspect
 import itertools
@@ -617,7 +622,7 @@ def plan(ctx):
         ("bzr", "m3", 2, 32, (COMBOS[0],)),
         ("bzr", "s3", 2, 32, (COMBOS[0],)),
         ("git", "m3", 2, 16, (COMBOS[0],)),
-        ("bzr", "t2", 3, 32, (COMBOS[0],)),
+        ("bzr", "t2", 3, 16, (COMBOS[0],)),
     ]
     if ctx.thorough:
         return quick + [
